@@ -441,7 +441,7 @@ struct StreamWorld : World {
                 switch (r.below(3)) {
                 case 0: pl.add("perm", {slot, (int64_t)r.below(12), (int64_t)(r.next() >> 1)}); break;
                 case 1: pl.add("sapi", {slot, (int64_t)(1 + r.below(10)), (int64_t)(r.next() >> 1)}); break;
-                default: pl.add("oneshot", {slot, (int64_t)r.below(5), (int64_t)r.pickv({0, 1, 7, 8, 15, 16, 17, 31, 32, 33, 40, 64, 65, 100}), (int64_t)r.pickv({0, 1, 8, 15, 16, 17, 32, 40}),
+                default: pl.add("oneshot", {slot, (int64_t)r.below(6), (int64_t)r.pickv({0, 1, 7, 8, 15, 16, 17, 31, 32, 33, 40, 64, 65, 100}), (int64_t)r.pickv({0, 1, 8, 15, 16, 17, 32, 40}),
                                             (int64_t)r.pickv({0, 1, 8, 16, 33}), (int64_t)r.below(4), (int64_t)(r.next() >> 1)}); break;
                 }
             } else {
@@ -730,7 +730,7 @@ struct StreamWorld : World {
     // pure function of the inputs and is not judged here.
     static void do_oneshot(Ctx &c, const Op &op)
     {
-        int kind = (int)(op.u(1) % 5);
+        int kind = (int)(op.u(1) % 6);
         size_t outlen = (size_t)(op.u(2) % 200), inlen = (size_t)(op.u(3) % 100), saltlen = (size_t)(op.u(4) % 100);
         unsigned long count = (unsigned long)(op.u(5) % 4);
         uint64_t sd = op.u(6);
@@ -765,6 +765,14 @@ struct StreamWorld : World {
                 status = ascon_mac_verify(t.p, ip, inlen, key.p);
                 if (c.record && !t.intact()) c.run->violation("C12", "canary", site, fmt("inlen=%zu", inlen));
             }
+            break; }
+        case 5: { // ascon_clean on an exact-size region: all of it zero afterwards, nothing around it touched
+            site = "ascon_clean";
+            GuardBuf o(outlen, (unsigned)(sd >> 15), c.page);
+            fill_bytes(o.p, outlen, sd ^ 9 ^ c.salt);
+            ascon_clean(o.p, (unsigned)outlen);
+            if (c.record && !o.intact()) c.run->violation("C12", "canary", site, fmt("size=%zu", outlen));
+            if (c.residue) c.residue->push_back(Residue{c.run->cur_op, -1, NKINDS, o.copy()}); // twin runs: what is left must not depend on what was there
             break; }
         default: {
             site = kind == 3 ? "ascon_pbkdf2" : "ascon_pbkdf2_hmac";
